@@ -311,11 +311,10 @@ def sub_case(tier, seed, index, k):
         spec, meta = gen(tier, seed, index2)
         if not quick_conditioned(spec):
             continue
-        ref = c03.reference(spec, cot_seed=1)
+        ref = c03.reference(spec, cot_seed=None)      # all-ones cotangent, as the CLI uses
         if ref is None:
             continue
         zref, gref = ref['out']['real']
-        # cotangent used by the CLI is all-ones: recompute the reference gradient for it
         path = os.path.join(tmpdir, f'c11_{os.getpid()}_{index2}.json')
         with open(path, 'w') as f:
             json.dump(spec_to_json(spec), f)
@@ -339,6 +338,28 @@ def sub_case(tier, seed, index, k):
             msg = C.close_tensor(z.reshape(zref.shape), zref, 'float64', rtol=2e-10, atol=1e-11)
             if msg:
                 viols.append(C.viol('cli:value', msg, context=ctx, spec=spec))
+                continue
+            # -G prints 'grad[<factor>]: <json>' for every factor
+            seen = 0
+            for l in lines[1:]:
+                if not l.startswith('grad['):
+                    continue
+                name = l[5:l.index(']')]
+                try:
+                    g = torch.tensor(json.loads(l[l.index(':') + 1:]), dtype=torch.float64)
+                except Exception as e:
+                    viols.append(C.viol('cli:unparsable', f'gradient line {l[:80]}: {e}', context=ctx))
+                    continue
+                if name in gref:
+                    seen += 1
+                    ge = gref[name]
+                    obs['cli_gradients_compared'] = obs.get('cli_gradients_compared', 0) + 1
+                    gg = torch.nan_to_num(g.reshape(ge.shape), nan=0.0) if ge.numel() else g
+                    scale = float(ge.abs().max()) if ge.numel() else 0.0
+                    if not torch.allclose(gg, ge, rtol=1e-6, atol=1e-9 * max(1.0, scale)):
+                        viols.append(C.viol('cli:gradient', f'grad[{name}] = {C.short(g.tolist(), 200)}, reference {C.short(ge.tolist(), 200)}', context=ctx, spec=spec))
+            if seen == 0 and spec['terminals']:
+                viols.append(C.viol('cli:no-gradients', '-G printed no gradient', context=ctx))
         try:
             os.remove(path)
         except OSError:
@@ -374,7 +395,7 @@ def finalize(tot, tier, seed):
     for k in ('J', 'J_precompute_products'):
         if tot['hooks'].get(k, 0) == 0:
             inc.append(f'hook {k} never reached')
-    for k in ('configurations', 'gradient_comparisons', 'cross_semiring_checks', 'jpre_true_runs', 'interpreter_runs', 'interpreter_results_compared', 'cli_runs', 'cli_values_compared'):
+    for k in ('configurations', 'gradient_comparisons', 'cross_semiring_checks', 'jpre_true_runs', 'interpreter_runs', 'interpreter_results_compared', 'cli_runs', 'cli_values_compared', 'cli_gradients_compared'):
         if tot['obs'].get(k, 0) == 0:
             inc.append(f'{k} never observed')
     if tot['features'].get('levels-not-effective', 0) or tot['features'].get('subprocess-timeout', 0):
